@@ -110,7 +110,20 @@ def ops_on(path_events, field):
             out.append(Op("delitem", ev.key, None, ev))
         elif isinstance(ev, ir.Store) and ev.field == field:
             out.append(Op("rebind", None, ev.value, ev))
-    return out
+    # d.rotate(-1); d[-1] = v  on a deque is  d.popleft(); d.append(v)  (the oldest entry moves to the right end and is
+    # overwritten there)
+    merged, i = [], 0
+    while i < len(out):
+        o = out[i]
+        args = tuple(getattr(o.ev, "args", ()))
+        if o.kind == "rotate" and args == (("const", -1),) and i + 1 < len(out) and out[i + 1].kind == "setitem" and \
+                out[i + 1].index == ("const", -1):
+            merged += [Op("popleft", None, None, o.ev), Op("append", None, out[i + 1].value, out[i + 1].ev)]
+            i += 2
+            continue
+        merged.append(o)
+        i += 1
+    return merged
 
 
 def is_value(t, param):
